@@ -13,6 +13,7 @@ import (
 	"github.com/NVIDIA/KAI-scheduler/pkg/scheduler/api/eviction_info"
 	"github.com/NVIDIA/KAI-scheduler/pkg/scheduler/api/node_info"
 	"github.com/NVIDIA/KAI-scheduler/pkg/scheduler/api/pod_info"
+	"github.com/NVIDIA/KAI-scheduler/pkg/scheduler/api/pod_status"
 	"github.com/NVIDIA/KAI-scheduler/pkg/scheduler/api/podgroup_info"
 	"github.com/NVIDIA/KAI-scheduler/pkg/scheduler/framework"
 	"github.com/NVIDIA/KAI-scheduler/pkg/scheduler/log"
@@ -25,6 +26,11 @@ func EvictAllPreemptees(ssn *framework.Session, preempteeTasks []*pod_info.PodIn
 
 	messages := getEvictionMessages(ssn, preempteeTasks, preemptor, actionType)
 	for _, task := range preempteeTasks {
+		if isAlreadyReleasing(ssn, task) {
+			// Already evicted (earlier in this statement, or already terminating): evicting it again
+			// would fire the deallocate handlers and emit the eviction a second time.
+			continue
+		}
 		message, found := messages[task.UID]
 		if !found {
 			return fmt.Errorf("failed to find message for task: %s", task.UID)
@@ -44,6 +50,17 @@ func EvictAllPreemptees(ssn *framework.Session, preempteeTasks []*pod_info.PodIn
 	}
 
 	return nil
+}
+
+// isAlreadyReleasing checks the session's own view of the task: victim scenarios hold clones whose
+// status is the one from the time they were recorded.
+func isAlreadyReleasing(ssn *framework.Session, task *pod_info.PodInfo) bool {
+	job, found := ssn.ClusterInfo.PodGroupInfos[task.Job]
+	if !found {
+		return false
+	}
+	current, found := job.GetAllPodsMap()[task.UID]
+	return found && current.Status == pod_status.Releasing
 }
 
 // getEvictionMessages generates all eviction message based on the state before any task was evicted
